@@ -518,7 +518,8 @@ func c08Concurrent(ctx *core.Ctx, out *core.Out) {
 	wg2.Wait()
 	// wait (bounded) until every ping has been through its handler
 	allHandled := false
-	for i := 0; i < 20000; i++ {
+	limit := time.Now().Add(20 * time.Second)
+	for i := 0; time.Now().Before(limit) && i >= 0; i++ {
 		hmu.Lock()
 		n := len(handled)
 		hmu.Unlock()
@@ -528,7 +529,7 @@ func c08Concurrent(ctx *core.Ctx, out *core.Out) {
 		}
 		select {
 		case <-rdDone:
-			i = 1 << 30 // the reader is gone: no more handler calls will come
+			i = -2 // the reader is gone: no more handler calls will come
 		default:
 		}
 		time.Sleep(time.Millisecond)
